@@ -28,6 +28,8 @@ for m in sorted(glob.glob(ROOT + '/seeded/*/meta.json')):
     det = j.get('detected_by', {})
     dets = '; '.join(f"{k}: {v}" for k, v in det.items()) if det else 'not run yet'
     missed_before = sorted({r['check'] for r in j.get('runs', []) if r['verdict'] == 'missed'} | set(j.get('missed_before_strengthening', [])))
+    if j.get('obsolete'):
+        dets = 'NO LONGER A REGRESSION: ' + j['obsolete']
     if missed_before:
         dets += ' (first missed by ' + ', '.join(missed_before) + '; the check was then strengthened)'
     if not j.get('summary'):
@@ -67,7 +69,7 @@ for i in range(1, 31):
     sd = []
     for mm in sorted(glob.glob(f'{ROOT}/seeded/{pid}-*/meta.json')):
         j = json.load(open(mm)); v = j.get('detected_by', {}).get(pid, '')
-        sd.append(os.path.basename(os.path.dirname(mm)) + (':caught' if 'VIOLATION' in v else ':MISSED' if 'missed' in v else ':?'))
+        sd.append(os.path.basename(os.path.dirname(mm)) + (':obsolete' if j.get('obsolete') else ':caught' if 'VIOLATION' in v else ':MISSED' if 'missed' in v else ':?'))
     strows.append(f"| {pid} | {m.META.get('level','')} | {', '.join(dict.fromkeys(mods))[:200]} | {ev.get('tier','')}: states={cov.get('states','')} judged={cov.get('evaluations', cov.get('judged',''))} wall={ev.get('wall_s','')}s | {nf} fix commits, {nk} known | {' '.join(sd)} |")
 status = "| property | level | TLA+ modules | last evidence (tier: states / observations judged / wall) | defects | own seeds |\n|---|---|---|---|---|---|\n" + "\n".join(strows)
 d = open(ROOT + '/DESIGN.md').read()
